@@ -3775,6 +3775,10 @@ func (p *Posix) HeadObject(ctx context.Context, input *s3.HeadObjectInput) (*s3.
 	}
 
 	size := fi.Size()
+	if fi.IsDir() {
+		// directory objects are always 0 len
+		size = 0
+	}
 
 	var objectLockLegalHoldStatus types.ObjectLockLegalHoldStatus
 	status, err := p.GetObjectLegalHold(ctx, bucket, object, versionId)
